@@ -97,6 +97,10 @@ FAMILIES = {
         ('GD_Monaghan92Accelerations', 'GD_Monaghan92Accelerations', lambda d: dict(alpha=1.0, beta=2.0)),
         ('GD_ADKEAccelerations', 'GD_ADKEAccelerations', lambda d: dict(alpha=1.0, beta=2.0, g1=0.2, g2=0.4, k=1.0, eps=0.5)),
         ('GD_MPMAccelerations', 'GD_MPMAccelerations', lambda d: dict(beta=2.0)),
+        # the non-default switches (alpha1/alpha2 differ from particle to
+        # particle here, as they do once the switch has evolved them)
+        ('GD_MPMAccelerations/update-alpha', 'GD_MPMAccelerations',
+         lambda d: dict(beta=2.0, update_alpha1=True, update_alpha2=True)),
     ],
     'sm': [
         ('SM_MomentumEquationWithStress', 'SM_MomentumEquationWithStress', lambda d: {}),
@@ -284,10 +288,19 @@ def run_config(ae_cache, family, kname, cfg):
     pas = build_arrays(system, len(FAMILIES[family]))
     kernel = getattr(KM, kname)(dim=dim)
     ae = make_eval(pas, family, kernel, dim)
+    if cfg.get('sort_gids'):
+        # valid gids, so that the neighbours really are sorted by gid (with the
+        # default gid of UINT_MAX sort_gids falls back to the index)
+        off = 0
+        for pa in pas:
+            n = pa.get_number_of_particles()
+            pa.get_carray('gid').get_npy_array()[:] = np.arange(off, off + n)[::-1]
+            off += n
     # fixed_h only says that h does not change with time; it must not change
     # the (symmetric) neighbour criterion
     nnps = getattr(NN, cfg['nnps'])(dim=dim, particles=pas, cache=cfg['cache'],
-                                    fixed_h=bool(cfg.get('fixed_h', False)))
+                                    fixed_h=bool(cfg.get('fixed_h', False)),
+                                    sort_gids=bool(cfg.get('sort_gids', False)))
     nnps.update()
     ae.set_nnps(nnps)
     ae.compute(0.0, 0.1)
@@ -363,7 +376,7 @@ def plan(seed, tier, wide=False):
                                      for _ in range(narr)]
                             cfgs.append({'dim': d, 'sizes': sizes,
                                          'seed': rng.randrange(2 ** 30),
-                                         'nnps': nn, 'cache': rng.random() < 0.5, 'fixed_h': rng.random() < 0.4,
+                                         'nnps': nn, 'cache': rng.random() < 0.5, 'fixed_h': rng.random() < 0.4, 'sort_gids': rng.random() < 0.4,
                                          'wdeltap': rng.choice([0.8, 1.7, -1.0])})
                 tasks.append((fam, kname, narr, cfgs))
     only = os.environ.get('C09_ONLY')          # debugging aid: fam:kernel:narr
